@@ -144,7 +144,9 @@ Fixpoint parse_records (fuel : nat) (b : bytes) : option (list (Z * wval)) :=
 Definition records (b : bytes) : option (list (Z * wval)) := parse_records (length b) b.
 
 (* ================= dialects ================= *)
-(* [std] is the specification. The package's decoder differs from it in four ways, each switched on in [pkgd]:
+(* [std] is the specification. The package's decoder differs from it in three ways, each switched on in [pkgd]
+   (a fourth one, strict_bool, described the package before its decodeBool was repaired -- it read one byte of the
+   varint only -- and is kept switched off):
    strict_bool      a bool written on more than one byte is not understood
    strict_32        a varint outside the range of a 32-bit field is an error (the specification truncates)
    strict_wire      a declared field met with another wire type is an error (the specification skips it as unknown;
@@ -153,7 +155,9 @@ Definition records (b : bytes) : option (list (Z * wval)) := parse_records (leng
                     default key -> default value) *)
 Record dialect : Type := { strict_bool : bool; strict_32 : bool; strict_wire : bool; drop_empty_entry : bool }.
 Definition std : dialect := {| strict_bool := false; strict_32 := false; strict_wire := false; drop_empty_entry := false |}.
-Definition pkgd : dialect := {| strict_bool := true; strict_32 := true; strict_wire := true; drop_empty_entry := true |}.
+Definition pkgd : dialect := {| strict_bool := false; strict_32 := true; strict_wire := true; drop_empty_entry := true |}.
+(* the package before the repair of decodeBool *)
+Definition pkgd_old : dialect := {| strict_bool := true; strict_32 := true; strict_wire := true; drop_empty_entry := true |}.
 
 Inductive res3 (A : Type) : Type := Upd (a : A) | Unk | Bad.
 Arguments Upd {A} a.
@@ -769,11 +773,12 @@ Definition is_struct_ty (t : gty) : bool := match t with TStruct _ => true | _ =
 Definition spec_roundtrip_statement : Prop :=
   forall fs m, desc_wf (PMsg fs) = true -> msg_wf (PMsg fs) (PVMsg m) = true -> len (spec_encode fs m) < 2 ^ 31 ->
     spec_decode std fs (spec_encode fs m) = Some m.
-(* S2: it reads EVERY legal encoding of m as m; so does the package dialect as long as no bool is padded *)
+(* S2: it reads EVERY legal encoding of m as m; so does the package dialect (and the dialect of the package before
+   the repair of decodeBool as long as no bool is padded) *)
 Definition spec_reencode_statement : Prop :=
   forall d bp fs m w, desc_wf (PMsg fs) = true -> msg_wf (PMsg fs) (PVMsg m) = true ->
     reencodes bp fs m w -> len w < 2 ^ 31 ->
-    (d = std \/ (d = pkgd /\ bp = false)) ->
+    (d = std \/ d = pkgd \/ (d = pkgd_old /\ bp = false)) ->
     spec_decode d fs w = Some m.
 
 (* (a) the package's bytes are standard: the transcribed decoder reads Marshal(&v) as a message denoting v *)
@@ -790,7 +795,7 @@ Definition unmarshal_refines_statement : Prop :=
     tags_sane t = true -> plain t = true -> wfb b = true -> len b < lim ->
     spec_decode pkgd (fields_of t) b = Some m ->
     exists fuel r v0, Unmarshal fuel t b (zero_val t) = Ok (Some r) /\ of_msg t m = Some v0 /\ norm r = norm v0.
-(* (b) hence Unmarshal reads every legal re-encoding of a message (bools on one byte) as that message *)
+(* (b) hence Unmarshal reads every legal re-encoding of a message as that message (bp = true: any padding) *)
 Definition unmarshal_reencoded_statement (bp : bool) : Prop :=
   forall t m w, type_ok t = true -> is_struct_ty t = true -> numbers_ok (codec_of t) = true ->
     tags_sane t = true -> plain t = true ->
